@@ -572,7 +572,22 @@ def rule_r2(ctx) -> List[R.Inst]:
     in_place2 = g2 and srt2 is not None and call_name(srt2[1]) == "sort"
     fo = M.fn(T.FROM_OFFSET)
     file = M.mods[fo.mod].rel
-    if g1 or in_place2:
+    # the dataclass constructor is public (TimingMap(bpm_changes_offset=[..]) in any order), and the queries read the map's OWN list
+    # by position next to the derived position list: construction-time sorting covers only maps built through the helper, so the
+    # in-place sort at first use (or a sort in __post_init__) is what the directly-built map relies on
+    post = M.method(T.TIMINGMAP, "__post_init__")
+    post_sorts = post is not None and any(isinstance(x, ast.Call) and call_name(x) in ("sort", "sorted") and "bpm_changes_offset" in unparse(x)
+                                          for x in ast.walk(M.fn(post).node))
+    reads_own = [x for meth in ("offsets", "snaps") for x in ast.walk(M.nfn(f"{T.TIMINGMAP}.{meth}").node)
+                 if isinstance(x, ast.Subscript) and unparse(x.value) in ("self.bpm_changes_offset", "bco_s") and not isinstance(x.slice, ast.Slice)]
+    if g1 and g2 and not in_place2 and not post_sorts and reads_own:
+        insts.append(R.viol(rid, "time-chain", M.mods[f2.mod].rel, (srt2[1] if srt2 else f2.node).lineno,
+                            f"bpm_changes_offset_to_snap derives the position list from a sorted COPY of the tempo list ({w2}), while the queries "
+                            f"read the map's own list by the same index ('{unparse(reads_own[0])}'): a TimingMap built directly from a list that is "
+                            f"not in time order (the dataclass constructor sorts nothing), or one whose list is appended to afterwards, pairs "
+                            f"the i-th position with another change's time — every conversion is wrong",
+                            construct="time-keyed tempo list sorted on a copy; the map's own list keeps the caller's order"))
+    elif g1 or in_place2:
         insts.append(R.ok(rid, "time-chain", file, fo.node.lineno,
                           idiom=("sorted at construction" if g1 else "") + (" / " if g1 and in_place2 else "") +
                                 ("sorted in place at first use" if in_place2 else "")))
